@@ -1005,7 +1005,12 @@ func (t *State) frozenHeightOfSpentOutput(txInput *protos.TxInput) int64 {
 			"reftxid", utils.F(txInput.RefTxid), "offset", txInput.RefOffset, "err", err)
 		return txInput.FrozenHeight
 	}
-	return refTx.TxOutputs[txInput.RefOffset].FrozenHeight
+	refOutput := refTx.TxOutputs[txInput.RefOffset]
+	if bytes.Equal(refOutput.ToAddr, []byte(FeePlaceholder)) {
+		// a fee output is materialised for the block's proposer by payFee, never frozen
+		return 0
+	}
+	return refOutput.FrozenHeight
 }
 
 func (t *State) procUndoBlkForWalk(undoBlocks []*pb.InternalBlock,
